@@ -478,6 +478,29 @@ class Expander:
                         else:
                             raise Unsupported("insert at non-constant position")
                 return
+        # any other call made for its effect: whatever it may update in place is no longer the value the algebra holds
+        # (`clip(z, lo, hi, out=z)`, `z.sort()`, `fill_diagonal(K, v)`, `copyto(dst, src)`): reading it later is Unsupported
+        if isinstance(node, ast.Call):
+            hit = []
+            for k in node.keywords:
+                if k.arg == "out":
+                    hit.extend(x.id for x in ast.walk(k.value) if isinstance(x, ast.Name))
+            f = node.func
+            nm = f.attr if isinstance(f, ast.Attribute) else f.id if isinstance(f, ast.Name) else None
+            if nm in ("fill_diagonal", "copyto", "put", "place", "putmask", "shuffle", "put_along_axis") and node.args:
+                b = node.args[0]
+                while isinstance(b, (ast.Subscript, ast.Attribute)) and not (isinstance(b, ast.Attribute) and isinstance(b.value, ast.Name)
+                                                                               and b.value.id == self.selfname):
+                    b = b.value
+                if isinstance(b, ast.Name):
+                    hit.append(b.id)
+            if isinstance(f, ast.Attribute) and nm in ("sort", "fill", "resize", "partition", "itemset", "clip", "round", "put") \
+                    and isinstance(f.value, ast.Name) and (nm not in ("clip", "round") or any(k.arg == "out" for k in node.keywords)):
+                hit.append(f.value.id)
+            for name in hit:
+                if name in env and not isinstance(env[name], PoisonV):
+                    env[name] = PoisonV(f"`{name}` is updated in place by `{ast.unparse(node)[:60]}` (line {getattr(node, 'lineno', 0)}), "
+                                        f"a statement outside the algebra")
         return
 
     def assign(self, t, v, env):
